@@ -78,6 +78,9 @@ def check(rng, m, w):
     ex = w.extract()
     all_nodes = []
     nodes(ex, m, "", all_nodes)
+    # values of every kind a program may assign, incl. extracted scopes taken from ANOTHER extraction of the same tree
+    donors = []
+    nodes(w.extract(), m, "", donors)
     for node, ms, path in all_nodes:
         got = node.__phil_path__()
         if (got or "") != path:
@@ -95,12 +98,15 @@ def check(rng, m, w):
             if bad in declared or hasattr(node, bad):
                 continue
             want_bad = bad if not path else path + "." + bad
-            try:
-                setattr(node, bad, 1)
-                return "assignment to undeclared %s accepted" % want_bad
-            except AttributeError as e:
-                if '"%s"' % want_bad not in str(e):
-                    return "AttributeError for %s does not spell the full path: %s" % (want_bad, str(e)[:80])
+            donor = rng.choice(donors)[0] if donors else None
+            for value, kind in ((1, "int"), (None, "None"), ("text", "str"), ([1, 2], "list"), (freephil.Auto, "Auto"),
+                                (donor, "an extracted scope of another extraction")):
+                try:
+                    setattr(node, bad, value)
+                    return "assignment of %s to undeclared %s accepted" % (kind, want_bad)
+                except AttributeError as e:
+                    if '"%s"' % want_bad not in str(e):
+                        return "AttributeError for %s does not spell the full path: %s" % (want_bad, str(e)[:80])
         for first_value in (1, None):
             inj = "injected_x"
             try:
@@ -120,6 +126,10 @@ def check(rng, m, w):
                 return "__inject__ overwrote the declared parameter %s (value %r)" % (name, before)
             except AttributeError:
                 pass
+    # the refused assignments above must not have touched the other extraction
+    for dn, dms, dpath in donors:
+        if (dn.__phil_path__() or "") != dpath:
+            return "a refused assignment changed the path of an untouched extraction to %r (master: %r)" % (dn.__phil_path__(), dpath)
     # detachment: mutate every list / nested value, re-extract, compare with a pristine extraction
     before_tree = w.as_str(attributes_level=3)
     pristine = _fetch.dump(w.extract())
